@@ -171,7 +171,8 @@ def main():
                              solver_s=round(r["solver_s"], 3), wall_s=round(r.get("wall_s", 0), 2),
                              canary=r["canary"], bounded=None,
                              **({"borrow_probes": r["borrow_probes"]} if r.get("borrow_probes") else {}),
-                             **({"ownership_conditions": r["ownership_conditions"]} if r.get("ownership_conditions") and pid == "C13" else {})))
+                             **({"ownership_conditions": r["ownership_conditions"]} if r.get("ownership_conditions") and pid == "C13" else {}),
+                             **({"atomic_sections": r["atomic_sections"]} if r.get("atomic_sections") else {})))
     # ---- Engine K -----------------------------------------------------------------------------
     kani_results, kani_note = krun.run(pid, a.tier) if kani_files else ([], None)
     bounded_checks = []
